@@ -190,6 +190,9 @@ package queueing
 //@ pred stagesIn(p, lo, hi) = forall j in 0..len(p.stages) :: lo <= p.stages[j].Stage && p.stages[j].Stage <= hi
 //@ pred advRange(p, lo, hi) = forall j in 0..len(p.stages) :: lo <= old(p.stages)[j].Stage && (old(p.stages)[j].Stage <= hi || old(p.stages)[j].Stage == p.numStages - 1)
 // hypothesis of the progress clause: dwell cycles only at stage 0, and nothing is waiting at the last stage (the sink took it)
+// a ground consequence of advHyp (its instance for record 0): the owner map of the occupancy table, which only the progress
+// clause needs, is kept under this guard so that the other obligations are not slowed down by it
+//@ pred advGuard(p) = old(p.stages)[0].Stage < p.numStages - 1
 //@ pred advHyp(p) = old(dwellOK(p)) && (forall j in 0..old(len(p.stages)) :: old(p.stages)[j].Stage < p.numStages - 1)
 
 //@ fn (*Pipeline[T]).advanceItems
@@ -218,11 +221,11 @@ package queueing
 //@   loop 0: invariant advFrame(p) && fresh(occ)
 //@   loop 0: invariant goffStep(goff, p.width, minStage - 1, maxStage + 3)
 //@   loop 0: invariant goffMono(goff, p.width, minStage, maxStage + 4)
-//@   loop 0: invariant goff[minStage] == 0 && len(occ) == goff[maxStage + 3] && goff[stage + 1] == (stage + 1 - occBase) * p.width
+//@   loop 0: invariant goff[minStage] == 0 && len(occ) == goff[maxStage + 3] && goff[stage + 1] == (stage + 1 - occBase) * p.width && 0 <= goff[stage + 1] && goff[stage + 1] + p.width <= len(occ)
 //@   loop 0: invariant recsOK(p) && stagesIn(p, minStage, maxStage + 1) && advRange(p, minStage, maxStage)
 //@   loop 0: invariant distinctOK(p)
 //@   loop 0: invariant occSound(p, occ, goff)
-//@   loop 0: invariant occOwned(p, occ, goff, gown0)
+//@   loop 0: invariant advGuard(p) ==> occOwned(p, occ, goff, gown0)
 //@   loop 0: invariant recKeep(p)
 //@   loop 0: invariant forall j in 0..len(p.stages) :: old(p.stages)[j].Stage <= stage || old(p.stages)[j].Stage > maxStage ==> recSame(p, j)
 //@   loop 0: invariant forall j in 0..len(p.stages) :: stage < old(p.stages)[j].Stage && old(p.stages)[j].Stage <= maxStage ==> recDone(p, j)
@@ -231,13 +234,11 @@ package queueing
 //@   loop 1: backedge gown1 = (p.stages[athead(i)].Stage == athead(p.stages[i].Stage) ? ownAt(athead(i), gown0, gown1) : upd(ownAt(athead(i), gown0, gown1), goff[stage + 1] + p.stages[athead(i)].Lane, athead(i)))
 //@   loop 1: invariant minStage <= stage && stage <= maxStage && maxStage <= lastStage - 1 && lastStage == p.numStages - 1 && occBase == minStage && 0 <= minStage && n == len(p.stages) && n > 0 && 0 <= i && i <= n
 //@   loop 1: invariant advFrame(p) && fresh(occ)
-//@   loop 1: invariant goffStep(goff, p.width, minStage - 1, maxStage + 3)
-//@   loop 1: invariant goffMono(goff, p.width, minStage, maxStage + 4)
-//@   loop 1: invariant goff[minStage] == 0 && len(occ) == goff[maxStage + 3] && goff[stage + 1] == (stage + 1 - occBase) * p.width && goff[stage] == (stage - occBase) * p.width
-//@   loop 1: invariant recsOK(p) && stagesIn(p, minStage, maxStage + 1) && advRange(p, minStage, maxStage)
+//@   loop 1: invariant goff[stage + 1] == (stage + 1 - occBase) * p.width && goff[stage] == (stage - occBase) * p.width && 0 <= goff[stage] && goff[stage + 1] == goff[stage] + p.width && goff[stage + 1] + p.width <= len(occ)
+//@   loop 1: invariant recsOK(p) && stagesIn(p, minStage, maxStage + 1)
 //@   loop 1: invariant distinctOK(p)
 //@   loop 1: invariant occSound(p, occ, goff)
-//@   loop 1: invariant occOwned(p, occ, goff, ownAt(i, gown0, gown1))
+//@   loop 1: invariant advGuard(p) ==> occOwned(p, occ, goff, ownAt(i, gown0, gown1))
 //@   loop 1: invariant recKeep(p)
 //@   loop 1: invariant forall j in 0..len(p.stages) :: old(p.stages)[j].Stage < stage || (old(p.stages)[j].Stage == stage && j >= i) || old(p.stages)[j].Stage > maxStage ==> recSame(p, j)
 //@   loop 1: invariant forall j in 0..len(p.stages) :: (stage < old(p.stages)[j].Stage && old(p.stages)[j].Stage <= maxStage) || (old(p.stages)[j].Stage == stage && j < i) ==> recDone(p, j)
@@ -316,7 +317,8 @@ package queueing
 //@   loop 0: backedge gfrom = (n < athead(n) ? upd(gfrom, athead(i), gfrom[athead(n) - 1]) : gfrom)
 //@   loop 0: invariant -1 <= i && i < n && n <= len(p.stages) && advFrame(p) && lastStage == p.numStages - 1 && p.width == old(p.width) && p.numStages == old(p.numStages)
 //@   loop 0: invariant c15PushN >= old(c15PushN) && n + (c15PushN - old(c15PushN)) == len(p.stages)
-//@   loop 0: invariant forall k in 0..n :: 0 <= gfrom[k] && gfrom[k] < len(p.stages) && !gem[gfrom[k]] && gto[gfrom[k]] == k && recEq(p, k, gfrom[k])
+//@   loop 0: invariant forall k in 0..n :: 0 <= gfrom[k] && gfrom[k] < len(p.stages) && !gem[gfrom[k]] && gto[gfrom[k]] == k
+//@   loop 0: invariant forall k in 0..n :: recEq(p, k, gfrom[k])
 //@   loop 0: invariant forall j in 0..len(p.stages) :: !gem[j] ==> 0 <= gto[j] && gto[j] < n && gfrom[gto[j]] == j
 //@   loop 0: invariant forall j in 0..len(p.stages) :: gem[j] ==> old(c15PushN) <= glp[j] && glp[j] < c15PushN && c15PushLog[glp[j]] == old(p.stages)[j].Item && gsrc[glp[j]] == j && old(p.stages)[j].Stage == p.numStages - 1 && old(p.stages)[j].CycleLeft == 0
 //@   loop 0: invariant forall q in old(c15PushN)..c15PushN :: 0 <= gsrc[q] && gsrc[q] < len(p.stages) && gem[gsrc[q]] && glp[gsrc[q]] == q
